@@ -95,6 +95,13 @@ type Run struct {
 	sawClose  bool
 	sawCreate bool
 	nops      int // file operations on the .hyd file so far
+	allops    int // file operations on any path so far (fault placement)
+	foreign   int
+	xhit      string // fault injected into an operation on another file (compaction)
+	hitOp     int    // index (within the call) of the operation that was hit
+	afterPut  bool   // ch level: WriteEntry of the current Write has returned (what follows is the inline compaction)
+	putOps    int    // number of file operations of the call at that moment
+	putFl     bool
 	faults    []Fault
 	hit       *Event // fault that fired during the current call
 	panics    int
@@ -113,6 +120,10 @@ func traceHook(ev string, kv ...any) {
 		chronOpen = b2i(!ok)
 	case "chron.put":
 		chronPut = b2i(!ok)
+		if r := cur; r != nil {
+			r.afterPut, r.putOps, r.putFl = true, r.callOps, r.sawBh
+			r.phase = 0
+		}
 	}
 }
 
@@ -121,9 +132,20 @@ func hook(kind string, f *os.File, path string, data []byte) error {
 	if r == nil {
 		return nil
 	}
-	if path != r.path {
+	r.allops++
+	if path != r.path { // the compaction's temporary file (or its rename): not part of the model
+		r.foreign++
 		if r.record {
 			r.ops = append(r.ops, OpRec{Ev: r.curEv, Kind: "x-" + kind, Raw: kind, Path: path})
+		}
+		for _, ft := range r.faults {
+			if ft.At == r.allops {
+				r.xhit = "x-" + kind + "/" + ft.Mode
+				if ft.Mode == "short" && f != nil && len(data) >= 2 {
+					f.Write(data[:len(data)/2])
+				}
+				return errInjected
+			}
 		}
 		return nil
 	}
@@ -145,7 +167,7 @@ func hook(kind string, f *os.File, path string, data []byte) error {
 			sk = "name"
 		case len(data) == v2.BlockHeaderSize:
 			sk, r.phase, r.sawBh = "bh", 1, true
-		case r.curCall == "close":
+		case r.curCall == "close" || r.afterPut:
 			sk = "chdr"
 		default:
 			sk = "shdr"
@@ -165,8 +187,9 @@ func hook(kind string, f *os.File, path string, data []byte) error {
 	r.callOps++
 	r.nops++
 	for _, ft := range r.faults {
-		if ft.At == r.nops {
+		if ft.At == r.allops {
 			ev := Event{"fk": sk, "fm": ft.Mode}
+			r.hitOp = r.callOps - 1
 			r.hit = &ev
 			if ft.Mode == "short" && f != nil && len(data) >= 2 {
 				f.Write(data[:len(data)/2])
@@ -191,6 +214,7 @@ func (r *Run) begin(call string) {
 	r.callOps = 0
 	r.phase = 0
 	r.sawBh, r.sawClose, r.sawCreate = false, false, false
+	r.afterPut, r.putOps, r.putFl = false, -1, false
 	r.hit = nil
 }
 
@@ -213,6 +237,10 @@ func (r *Run) guarded(f func() error) (err error) {
 }
 
 func (r *Run) emit(ev Event) {
+	if r.xhit != "" {
+		ev["xf"] = r.xhit
+		r.xhit = ""
+	}
 	if r.hit != nil {
 		for k, v := range *r.hit {
 			ev[k] = v
@@ -494,35 +522,85 @@ func (r *Run) stepCh(s Step) {
 		r.begin("put")
 		chronOpen, chronPut = -1, -1
 		r.guarded(func() error { r.ch.Write([]treasure.Treasure{t}); return nil })
+		if chronOpen == -1 { // Write returned before ensureWriter (never without a panic)
+			chronOpen = 1
+		}
+		nCall := r.callOps
+		first := len(r.ops) - nCall // (only hyd-path operations are counted in callOps; foreign ones are skipped below)
+		own := []int{}
+		for i := 0; i < len(r.ops); i++ {
+			if r.ops[i].Ev == r.curEv && r.ops[i].Path == r.path {
+				own = append(own, i)
+			}
+		}
+		_ = first
+		k := 0
+		for _, i := range own {
+			if kd := r.ops[i].Kind; kd == "create" || kd == "hdr0" || kd == "name" {
+				k++
+			}
+		}
+		putOps := r.putOps
+		if putOps < 0 { // WriteEntry was never reached (the writer could not be opened)
+			putOps = nCall
+		}
+		hit, hitOp := r.hit, r.hitOp
+		r.hit = nil
 		if !r.wopen {
 			// the writer is created lazily inside Write: its file operations come first
-			k := 0
-			for i := len(r.ops) - r.callOps; i < len(r.ops); i++ {
-				if kd := r.ops[i].Kind; kd == "create" || kd == "hdr0" || kd == "name" {
-					k++
+			ev := Event{"ev": "open", "nm": b2i(r.h.Named), "res": chronOpen}
+			if hit != nil && hitOp < k {
+				for kk, v := range *hit {
+					ev[kk] = v
 				}
+				hit = nil
 			}
-			hit := r.hit
-			if hit != nil && ((*hit)["fk"] == "create" || (*hit)["fk"] == "hdr0" || (*hit)["fk"] == "name") {
-				hit = nil // the fault belongs to the open
-			} else {
-				r.hit = nil
-			}
-			r.emit(Event{"ev": "open", "nm": b2i(r.h.Named), "res": chronOpen})
-			r.hit = hit
-			for i := len(r.ops) - r.callOps + k; i < len(r.ops); i++ { // the put's own operations
-				r.ops[i].Ev = len(r.events)
-				r.ops[i].Idx -= k
-			}
+			r.emit(ev)
 			r.wopen = chronOpen == 0
 		}
-		// told = 0: chronicler.Write reports nothing to its caller; res is the internal WriteEntry result
-		ev := r.putEvent(s, 1, chronPut, r.sawBh)
-		ev["told"] = 0
-		r.emit(ev)
-		if r.sawClose { // inline compaction closed the writer (and rewrote the file)
-			r.emit(Event{"ev": "close", "res": -1, "implicit": 1})
-			r.wopen = false
+		for n, i := range own { // the put's own operations
+			if n >= k && n < putOps {
+				r.ops[i].Ev, r.ops[i].Idx = len(r.events), n-k
+			}
+		}
+		if chronOpen == 0 {
+			// told = 0: chronicler.Write reports nothing to its caller; res is the internal WriteEntry result
+			fl := r.sawBh
+			if r.afterPut {
+				fl = r.putFl
+			}
+			ev := r.putEvent(s, 1, chronPut, fl)
+			ev["told"] = 0
+			if hit != nil && hitOp < putOps {
+				for kk, v := range *hit {
+					ev[kk] = v
+				}
+				hit = nil
+			}
+			r.emit(ev)
+		} else {
+			ev := r.putEvent(s, 1, 1, false) // never reached the writer: dropped
+			ev["told"] = 0
+			r.emit(ev)
+		}
+		if r.sawClose || nCall > putOps { // inline compaction closed (or tried to close) the writer
+			ev := Event{"ev": "close", "res": -1, "implicit": 1}
+			if hit != nil {
+				for kk, v := range *hit {
+					ev[kk] = v
+				}
+				ev["res"] = 1
+				hit = nil
+			}
+			for n, i := range own {
+				if n >= putOps {
+					r.ops[i].Ev, r.ops[i].Idx = len(r.events), n-putOps
+				}
+			}
+			r.emit(ev)
+			if r.sawClose {
+				r.wopen = false
+			}
 		}
 	case "sync", "flush":
 		if r.ch == nil {
@@ -547,7 +625,10 @@ func (r *Run) stepCh(s Step) {
 				r.emit(Event{"ev": "close", "res": resCode(err)})
 			}
 		}
-		r.ch, r.wopen = nil, false
+		r.wopen = false
+		if !s.Same {
+			r.ch = nil // the swamp is gone; the next session summons a new chronicler (Load)
+		}
 	case "load":
 		r.begin("load")
 		e, m := r.peek()
